@@ -1,4 +1,5 @@
 import IstioModel.C04.Process
+import IstioModel.C04.ProcessLemmas
 import IstioModel.C04.Theorems
 
 /-!
@@ -64,25 +65,6 @@ theorem pushAllDeltaC_refines (gen : C03.Gen) (v : C03.Srv) (ts : List Ty) :
     · simp [hf]
 
 /-! ## One push, in closed form -/
-
-theorem pushSotwOne_none (gen : C03.Gen) (v : C03.Srv) (t : Ty) (sub : List String) (h : v.st t = none) :
-    C03.pushSotwOne gen v t sub = (v, none, false) := by
-  simp [C03.pushSotwOne, h]
-
-theorem pushSotwOne_some (gen : C03.Gen) (v : C03.Srv) (t : Ty) (sub : List String) (w : WR)
-    (h : v.st t = some w) :
-    C03.pushSotwOne gen v t sub =
-      if (gen t (C03.narrowedSotw w.names sub)).resNil then (v, none, false)
-      else if v.fail then (v, none, true)
-      else ({ v with st := send v.st t (C03.freshNonce v) true, ctr := v.ctr + 1 },
-            some { ty := t, resources := (gen t (C03.narrowedSotw w.names sub)).res, removed := [],
-                   nonce := C03.freshNonce v }, false) := by
-  simp only [C03.pushSotwOne, h, C03.pushSotw]
-  cases (gen t (C03.narrowedSotw w.names sub)).resNil <;> simp
-
-theorem pushDeltaOne_none (gen : C03.Gen) (v : C03.Srv) (t : Ty) (sub unsub : List String) (h : v.st t = none) :
-    C03.pushDeltaOne gen v t sub unsub = (v, none, false) := by
-  simp [C03.pushDeltaOne, h]
 
 /-! ## The outcome depends on the generator only through the recorded calls -/
 
@@ -330,32 +312,6 @@ theorem dproc_stale_silent (gen : C03.Gen) (v : C03.Srv) (r : DReq) (prev : WR)
     (hn : r.nonce ≠ "") (hstale : r.nonce ≠ prev.nonceSent) (hc : r.carries = false) :
     procDelta gen v r = some { srv := v, sent := [], calls := [] } :=
   dproc_silent_of_not_respond gen v r _ (delta_stale_nonce_silent v.st r prev herr hprev hn hstale hc)
-
-theorem insertAll_noop (res : List String) (c : Bool) (xs : List String) (h : ∀ x ∈ xs, x ∈ res) :
-    insertAll res c xs = (res, c) := by
-  induction xs with
-  | nil => rfl
-  | cons x xs ih =>
-    have hx : res.contains x = true := by simpa using h x (by simp)
-    simp only [insertAll, hx, if_true]
-    exact ih (fun y hy => h y (by simp [hy]))
-
-theorem eraseAll_noop (res : List String) (c : Bool) (xs : List String) (h : ∀ x ∈ xs, x ∉ res) :
-    eraseAll res c xs = (res, c) := by
-  induction xs with
-  | nil => rfl
-  | cons x xs ih =>
-    have hx : res.contains x = false := by simpa using h x (by simp)
-    simp only [eraseAll, hx, Bool.false_eq_true, if_false]
-    exact ih (fun y hy => h y (by simp [hy]))
-
-/-- Subscribing to names that are on record and unsubscribing from names that are not changes nothing. -/
-theorem deltaWatched_unchanged (names : List String) (r : DReq)
-    (hs : ∀ x ∈ r.sub, x ∈ names) (hi : ∀ x ∈ r.init, x ∈ names) (hu : ∀ x ∈ r.unsub, x ∉ names) :
-    (deltaWatched names r).2.2 = false := by
-  unfold deltaWatched
-  simp only [insertAll_noop names false r.sub hs, insertAll_noop names false r.init hi,
-    eraseAll_noop names false r.unsub hu]
 
 /-- **An ACK (or a spontaneous request) that re-subscribes to names already on record is silent**: the
     request carries subscribe names, yet nothing is sent and no generator runs. -/
